@@ -3,7 +3,7 @@ import vlib, ptcp_common as pc
 
 COQ_TARGETS = ["Props/Properties_C08.vo"] + pc.COQ_TARGETS_COMMON
 META = dict(
-    text="proof (partial): SENDER HONESTY is proved at socket level over the bit-exact model for ALL sequences of the eleven socket operations (connect, send, recv, notify_packet with ANY bytes, notify_clock, notify_mtu, shutdown, close, buffer sizes): every data packet the socket ever emits — first transmission, retransmission or MTU-driven re-segmentation — carries exactly the slice of the bytes accepted by send() at its sequence number (no-wrap hypothesis: fewer than 2^31-8 bytes written; conditional on no Fault, which is C10's business); receiver side: frame / FIFO-versus-stream / rlist-recovery lemmas, the process() walk itself is written but its last Qed does not terminate and it is NOT claimed; a refuted witness shows that honest data alone is not enough (a connect segment rejected for its timestamp echo after it changed the state, DESIGN 9.6); and the earlier building blocks: Coq theorems on the bit-exact executable model of pseudotcp.c prove the data-path building blocks for all inputs (receive-side reassembly delivers exactly the stream's bytes for EVERY arrival order, duplication and overlap of consistent segments that cover the committed range, also lifted to the receive FIFO commit; every emitted payload is the slice [offset, offset+len) of the send buffer; an in-sequence segment that fits is appended to the receive FIFO exactly, whatever stale out-of-order extents exist). The two-socket theorem 'bytes read are a prefix of bytes written, EOS only after everything before the graceful close was read, under every loss/dup/reorder/delay schedule' is stated in DESIGN.md but NOT proved; for that clause the check relies on the model=code correspondence (every packet, callback, return value and a 20-field state digest compared on generated schedules) and an implementation-side prefix/EOS oracle as counterexample search.",
+    text="proof (partial): SENDER HONESTY is proved at socket level over the bit-exact model for ALL sequences of the eleven socket operations (connect, send, recv, notify_packet with ANY bytes, notify_clock, notify_mtu, shutdown, close, buffer sizes): every data packet the socket ever emits — first transmission, retransmission or MTU-driven re-segmentation — carries exactly the slice of the bytes accepted by send() at its sequence number (no-wrap hypothesis: fewer than 2^31-8 bytes written; conditional on no Fault, which is C10's business); RECEIVER SOUNDNESS: for every arrival order, duplication and overlap of segments that are honest w.r.t. the peer's stream the bytes handed out by recv are a prefix of that stream (process() walked phase by phase); COMPOSITION: two sockets connected by a network that only delivers packets the other socket emitted earlier (any subset, order, multiplicity) and arbitrary application operations: the bytes read from each side are a prefix of the bytes written to the other, under explicit hypotheses that are NOT derived — every emitted connect segment carries the connect message whole and every FIN sits at the end of the queued stream (what MTU >= 123 and a peer window >= 7 give), no connect segment echoes a timestamp ahead of the receiver's clock, receive buffers >= 7 bytes, fewer than 2^31-10 bytes per direction; two refuted witnesses show the first two are necessary (DESIGN 9.6); once the peer's FIN is consumed, read ++ buffered = everything the peer wrote (end-of-stream, partial); and the building blocks: Coq theorems on the bit-exact executable model of pseudotcp.c prove the data-path building blocks for all inputs (receive-side reassembly delivers exactly the stream's bytes for EVERY arrival order, duplication and overlap of consistent segments that cover the committed range, also lifted to the receive FIFO commit; every emitted payload is the slice [offset, offset+len) of the send buffer; an in-sequence segment that fits is appended to the receive FIFO exactly, whatever stale out-of-order extents exist). The two-socket theorem 'bytes read are a prefix of bytes written, EOS only after everything before the graceful close was read, under every loss/dup/reorder/delay schedule' is stated in DESIGN.md but NOT proved; for that clause the check relies on the model=code correspondence (every packet, callback, return value and a 20-field state digest compared on generated schedules) and an implementation-side prefix/EOS oracle as counterexample search.",
     note='trusted: Coq kernel, extraction, the hand-written model (tied by sampling), harness with virtual clock. Partial: the prefix/EOS theorem itself is not machine-checked; fewer than 2^31 bytes per direction assumed by the oracle.',
     technique='Coq lemmas over bit-exact executable model (partial) + differential correspondence + prefix/EOS oracle')
 
